@@ -79,7 +79,7 @@ def _obl(oid: str, build: Callable[[], Any], embed: Callable[[str], str], must: 
             lang, minus = build()
         except rx.Untranslatable as e:
             return {"status": "inconclusive", "detail": f"pattern uses an untranslatable construct: {e}"}
-        res = rx.difference_witnesses(lang, minus, _compile_screen(embed, must))
+        res = rx.difference_witnesses(lang, minus, _compile_screen(embed, must), max_shapes=150)
         if res["status"] == "violated":
             q = embed(res["witness"])
             res["replay"] = {"harness": "harness/c06.py" if fn == "only_family" else "harness/c07.py", "fn": fn, "params": {},
